@@ -103,6 +103,38 @@ def classify(ops, lines):
     if len(ws) >= 2: tags.add("multi-packet")
     return tags
 
+def two_sender_probe(ck, rr, prop):
+    """two senders under forced lock-granularity schedules on the real code (used by C01 and C10)"""
+    import flowgen
+    # two senders under forced lock-granularity schedules: sender A (long message, deep address) is parked before its k-th
+    # mutex acquisition inside the submission while sender B (short message, other node) submits; the wire must carry exactly
+    # the two messages, each intact (address, type, data) and once
+    exe2 = vlib.build_harness(wrap=("pthread_mutex_lock",))
+    L2 = ["start 1 - 0"]; sp = []
+    for k in range(1, 9):
+        da = [rr.range(1, 250) for _ in range(rr.range(12, 30))]; db = [rr.range(1, 250) for _ in range(rr.range(1, 3))]
+        ja = (1, 2, 3, 0x17, da); jb = (rr.choice([4, 5]), 0, 0, 0x17, db)
+        if k % 2 == 0: ja, jb = jb, ja
+        sp.append((k, ja, jb))
+        L2 += ["case t%d" % k, "reset_nodes", "cap 0", "flush", "sched2 %d %d %d %d %d %s %d %d %d %d %s" % ((k,) + ja[:4] + (hexs(ja[4]),) + jb[:4] + (hexs(jb[4]),)), "flush"]
+    rc2, out2, err2 = vlib.run_driver(exe2, "\n".join(L2) + "\n", timeout=300)
+    pc2 = vlib.split_cases(out2); tbad = 0
+    for k, ja, jb in sp:
+        ls = pc2.get("t%d" % k)
+        chunks = [unhex(l[2:]) for l in (ls or []) if l.startswith("w ")]
+        pk = flowgen.decode_wire(chunks) if ls is not None else None
+        got = sorted((tuple(a), ty, tuple(d)) for p in (pk or []) for a, sq, ty, d in [flowgen.msg_fields(m) for m in p])
+        want = sorted((tuple(x for x in j[:3] if x), j[3], tuple(j[4])) for j in (ja, jb))
+        if pk is None or got != want:
+            tbad += 1
+            if tbad <= 2:
+                ck.violation("concurrent-submit", {"property": prop, "scenario": "sender A parked before its %d-th mutex acquisition inside the submission while sender B submits; then A continues" % k,
+                             "schedule": ["sched2 %d %d %d %d %d %s %d %d %d %d %s" % ((k,) + ja[:4] + (hexs(ja[4]),) + jb[:4] + (hexs(jb[4]),))],
+                             "A": [list(ja[:3]), ja[3], hexs(ja[4])], "B": [list(jb[:3]), jb[3], hexs(jb[4])], "wire_chunks": [hexs(c) for c in chunks], "decoded": [list(map(str, g)) for g in got],
+                             "driver_rc": rc2, "reason": "the wire does not carry exactly the two submitted messages, each intact and once"})
+    ck.oblige("concurrency probe: two senders under forced lock-granularity schedules, messages intact and once (%d schedules)" % len(sp), tbad == 0, "%d bad" % tbad)
+    return tbad
+
 def run(ck):
     quick = ck.tier == "quick"
     cdir, proofs_ok = vlib.proof_phase(ck, "Properties_C01.v", translators=("tables", "lockcfg"))
@@ -136,6 +168,7 @@ def run(ck):
             ck.violation("concurrent-flush", {"property": "C01", "scenario": "thread 1: add A, flush (slow write callback); thread 2 meanwhile: add B, flush",
                          "A": hexs(a), "B": hexs(b), "wire_chunks": [hexs(c) for c in chunks], "reason": "wire is not a sequence of valid packets carrying A and B exactly once"})
     ck.oblige("concurrency probe: flush racing a slow write callback (%d runs)" % len(pm), race_bad == 0, "%d bad" % race_bad)
+    two_sender_probe(ck, rr, "C01")
     md = vlib.build_model_driver(cdir)
     r = Rng(ck.seed).fork("C01")
     n = 4000 if quick else 150000
